@@ -1360,5 +1360,7 @@ SPECIAL_FORMS = {"dict_wf": _dict_wf, "dict_pos": _dict_pos, "was": _was, "ghost
                  "sval": _sval, "ival": _ival, "cls_is": _cls_is, "same": _same_obj, "as_ref": _as_ref}
 SPECIAL_ALWAYS = set()
 SPEC_FUNCS = set()
+from . import marks as _marks  # noqa: E402
+SPECIAL_FORMS.update(_marks.FORMS)
 
 from .builtins_calls import *  # noqa: E402,F401
